@@ -30,7 +30,7 @@ add = Fn(F, ["impl OsIpcReceiverSet", "add"], ret="r", extra_params=TS,
                "r matches Ok(id) ==> final(self).pollfds@ == old(self).pollfds@.insert(Token(cell_val(&receiver.fd) as usize), PollEntry { id: id, fd: cell_val(&receiver.fd) })\n"
                "&& final(s).registered == old(s).registered.insert(Token(cell_val(&receiver.fd) as usize), cell_val(&receiver.fd))", ["C06"]),
         Clause("unix.set.add/ensures.wf", "r is Ok ==> final(self).wf(*final(s))", ["C06", "C11"]),
-        Clause("unix.set.add/ensures.failed_add_leaves_set_unchanged", "r is Err ==> final(self).pollfds@ == old(self).pollfds@ && final(s).registered == old(s).registered", ["C06"]),
+        Clause("unix.set.add/ensures.failed_add_leaves_set_unchanged", "r is Err ==> final(self).pollfds@ == old(self).pollfds@ && final(s).registered == old(s).registered", ["C06", "C11"]),
         Clause("unix.set.add/ensures.failed_add_leaves_descriptor_with_its_receiver",
                "(r is Err ==> final(s).taken == old(s).taken) && (r is Ok ==> final(s).taken == old(s).taken.insert(cell_val(&receiver.fd)) && final(s).open.contains(cell_val(&receiver.fd)))", ["C11"]),
     ],
